@@ -202,7 +202,8 @@ class C14(Prop):
         "eliminated rows, find_active_indices) is tied to the real functions on every run and "
         "family_ok is evaluated by Coq on every real family of subproblems.")
     level_note = (
-        "NOT proved: locality of the numerical kernel (that a subgrid with the overlap chosen by "
+        "Repaired defect (fix f4eeda1b2): Mpfa's 'all faces are mine' shortcut assigned instead "
+        "of added; witness in corpus/C14. NOT proved: locality of the numerical kernel (that a subgrid with the overlap chosen by "
         "cell_ind_for_partial_update reproduces the one-piece rows of the faces it is "
         "responsible for) - hypothesis local_ok; it is exactly what the oracle tests: "
         "one-piece vs 1-8 subproblems (num_subproblems and max_memory), partial "
